@@ -39,8 +39,12 @@ class Var:
 
 
 class Buf:
-    def __init__(self, name, dims, writable=True, window=False, is_alias=False):
+    def __init__(self, name, dims, writable=True, window=False, is_alias=False, root=None, amap=None):
         self.name, self.dims, self.writable, self.window, self.is_alias = name, dims, writable, window, is_alias
+        # for aliases made of constant windows: the root buffer and, per root dimension, ("pt", c) or
+        # ("iv", offset, index of the alias dimension) -- lets the generator hit one cell through two names
+        self.root = root or name
+        self.amap = amap if (amap is not None or is_alias) else [("iv", 0, k) for k in range(len(dims))]
 
 
 class ProgGen:
@@ -270,26 +274,59 @@ class ProgGen:
                 if not src:
                     continue
                 b = rng.choice(src)
-                acc, dims = [], []
+                acc, dims, sub = [], [], []   # sub: per source dim ("pt", c) | ("iv", lo) | None (not constant)
                 for d in b.dims:
                     if rng.random() < 0.4 and len(b.dims) > 1:
-                        acc.append(self.index(d, env))
+                        if isinstance(d, int) and rng.random() < 0.6:
+                            c = rng.randrange(d)
+                            acc.append(str(c))
+                            sub.append(("pt", c))
+                        else:
+                            acc.append(self.index(d, env))
+                            sub.append(None)
                     elif isinstance(d, int):
                         lo = rng.randrange(d) if rng.random() < 0.8 else 0
                         hi = rng.randint(lo + 1, d)
                         acc.append("%d:%d" % (lo, hi))
                         dims.append(hi - lo)
+                        sub.append(("iv", lo))
                     else:
                         acc.append("0:%s" % d)
                         dims.append(d)
+                        sub.append(("iv", 0))
                 if not dims:
                     continue
+                amap = None
+                if b.amap is not None and all(x is not None for x in sub):
+                    amap, newdim = [], {}
+                    k2 = 0
+                    for k, x in enumerate(sub):
+                        if x[0] == "iv":
+                            newdim[k] = k2
+                            k2 += 1
+                    for r in b.amap:
+                        if r[0] == "pt":
+                            amap.append(r)
+                        else:
+                            _, off, k = r
+                            x = sub[k]
+                            amap.append(("pt", off + x[1]) if x[0] == "pt" else ("iv", off + x[1], newdim[k]))
                 nm = self.name("w")
                 lines.append("%s%s = %s[%s]" % (ind, nm, b.name, ", ".join(acc)))
-                wb = Buf(nm, dims, writable=b.writable, window=True, is_alias=True)
+                wb = Buf(nm, dims, writable=b.writable, window=True, is_alias=True, root=b.root, amap=amap)
                 bufs.append(wb)
-                if b.writable and rng.random() < 0.6:
-                    # accesses to the same storage through the alias and through its source, next to each other
+                root = next((q for q in bufs if q.name == b.root), None)
+                if b.writable and amap is not None and root is not None and all(isinstance(d, int) for d in dims) \
+                        and rng.random() < 0.7:
+                    # the SAME cell written through the alias and through the root buffer, next to each other:
+                    # any rewrite that reorders/duplicates them must see that they conflict
+                    j = [rng.randrange(d) for d in dims]
+                    ridx = [str(r[1]) if r[0] == "pt" else str(r[1] + j[r[2]]) for r in amap]
+                    pair = ["%s%s[%s] = %d.0" % (ind, nm, ", ".join(map(str, j)), rng.randint(1, 4)),
+                            "%s%s[%s] %s %d.0" % (ind, root.name, ", ".join(ridx), rng.choice(["=", "+="]), rng.randint(5, 9))]
+                    rng.shuffle(pair)
+                    lines += pair
+                elif b.writable and rng.random() < 0.5:
                     pair = ["%s%s = %s" % (ind, self.access(wb, env), self.rhs(bufs, env, 1)),
                             "%s%s %s %s" % (ind, self.access(b, env), rng.choice(["=", "+="]), self.rhs(bufs, env, 1))]
                     rng.shuffle(pair)
